@@ -293,6 +293,16 @@ Theorem C04_typed_write_is_sole : forall b0 kof bof cf0 cf t s' c' g',
   estep b0 t (ms cf) (cur (gettc b0 cf t)) (gh (gettc b0 cf t)) s' c' g' -> writes_b0 b0 (cur (gettc b0 cf t)) ->
   forall u, u <> t -> ~ Contents.holds (ms cf) u.
 Proof. exact typed_write_is_sole. Qed.
+(* every execution of a program (typed or not) is a schedule of the machine, so what is proved of all schedules holds of all
+   executions; for a typed program: along its schedule, whatever a thread that can reach the buffer throughout finds
+   written, reallocated or released, it did itself *)
+Theorem C04_executions_are_schedules : forall b0 cf cf', csteps b0 cf cf' -> exists sched, Mach.run (ms cf) sched = Mach.Ok (ms cf').
+Proof. exact csteps_schedule. Qed.
+Theorem C04_typed_execution_contents : forall b0 kof bof cf0 cf,
+  WT b0 kof bof cf0 -> csteps b0 cf0 cf ->
+  exists sched, Mach.run (ms cf0) sched = Mach.Ok (ms cf)
+    /\ forall t, held_through (ms cf0) t sched -> Forall (fun ua => (snd ua = AWrite \/ snd ua = AFree) -> fst ua = t) sched.
+Proof. exact typed_execution_contents. Qed.
 (* the premises are met (write 7, share, the other thread reads and drops, write 9: thread 0 holds throughout), and a
    write by a thread that merely shares is not a step of the machine *)
 Example C04_contents_example :
@@ -367,3 +377,5 @@ Print Assumptions C04_lender_release_enabled.
 Print Assumptions C04_lender_probe_not_exclusive.
 Print Assumptions C04_lender_example.
 Print Assumptions C04_lender_spawn_example.
+Print Assumptions C04_executions_are_schedules.
+Print Assumptions C04_typed_execution_contents.
